@@ -890,7 +890,11 @@ def gen_c20_names(rng, tier):
     sufs = ['.meshb', '.ugrid', '.lb8.ugrid', '.b8.ugrid64', '.su2', '.msh', '.solb', '.met', '.tec', '.x', '']
     for _ in range(40):
         stem = ''.join(rng.choice('abcxyz_0') for _ in range(rng.randint(0, 9)))
-        ops.append('robust_name %d hcn_%s%s' % (rng.randint(0, 2), stem, rng.choice(sufs)))
+        which = rng.randint(0, 2)
+        # the exporters behind the dispatch run on an empty grid here: only the ones that accept one are named
+        # (ref_export_su2 overflows `max_id - min_id` on a grid without boundary faces - outside this package)
+        suf = rng.choice(['.meshb', '.tec', '.x', '']) if which == 1 else rng.choice(sufs)
+        ops.append('robust_name %d hcn_%s%s' % (which, stem, suf))
     return ops
 
 
